@@ -52,10 +52,74 @@ func errStr(err error) string {
 	return s
 }
 
+// ---- history independence of a long-lived HeaderValidator --------------------------
+// A node keeps one validator per network and feeds it every header. Its verdict on a
+// header must be the verdict a fresh validator gives, whatever it validated before:
+// the same header is also put to a validator that is reused across all cases of the
+// run, after 0-3 inputs that differ only in the stake context (same pool stake with
+// another total stake, another pool stake), and every verdict is compared with a fresh
+// validator's. Differences are collected here and reported by the running case.
+var (
+	c40Reused     = map[string]*consensus.HeaderValidator{}
+	c40ReuseDiffs []string
+	c40ReuseEvals int
+	c40ReuseTick  uint64
+)
+
+func c40ReuseProbe(h *hdrFields, c *valCtx, freshValid bool) {
+	key := fmt.Sprintf("%s|%d|%d|%v", c.F.Rat.String(), c.SlotsPerKES, c.MaxEvolutions, c.mode())
+	shared := c40Reused[key]
+	if shared == nil {
+		shared = c.validator()
+		c40Reused[key] = shared
+	}
+	c40ReuseTick++
+	var ctxs []*valCtx
+	mulSat := func(a, k uint64) uint64 {
+		if a > ^uint64(0)/k {
+			return ^uint64(0)
+		}
+		return a * k
+	}
+	alt := func(pool, total uint64) {
+		if total == 0 || pool > total {
+			return
+		}
+		cc := *c
+		cc.PoolStake, cc.TotalStake = pool, total
+		ctxs = append(ctxs, &cc)
+	}
+	switch c40ReuseTick % 4 {
+	case 0: // same pool stake, much larger total first
+		alt(c.PoolStake, mulSat(c.TotalStake, 1000))
+	case 1: // same pool stake, sigma = 1 first, then a larger total
+		alt(c.PoolStake, c.PoolStake)
+		alt(c.PoolStake, mulSat(c.TotalStake, 3))
+	case 2: // another pool stake under the same total
+		alt(c.PoolStake/2+1, c.TotalStake)
+		alt(c.PoolStake, mulSat(c.TotalStake, 1_000_000))
+	}
+	ctxs = append(ctxs, c)
+	for i, cc := range ctxs {
+		want := freshValid
+		if cc != c {
+			want = cc.validator().ValidateHeader(cc.input(h)).Valid
+		}
+		got := shared.ValidateHeader(cc.input(h)).Valid
+		c40ReuseEvals++
+		if got != want {
+			c40ReuseDiffs = append(c40ReuseDiffs, fmt.Sprintf(
+				"a HeaderValidator reused across headers says valid=%v for slot %d with poolStake=%d totalStake=%d (step %d of %d in this probe) where a fresh validator says %v",
+				got, h.Slot, cc.PoolStake, cc.TotalStake, i+1, len(ctxs), want))
+		}
+	}
+}
+
 func c40Run(h *hdrFields, c *valCtx, body *blockBody, blockBytes []byte) c40Verdict {
 	var v c40Verdict
 	res := c.validator().ValidateHeader(c.input(h))
 	v.HV = res.Valid
+	c40ReuseProbe(h, c, res.Valid)
 	v.HVOut = res.VrfOutput
 	for _, e := range res.Errors {
 		v.HVErrs = append(v.HVErrs, errStr(e))
@@ -239,7 +303,7 @@ func genF(rt *rapid.T) (*big.Rat, string) {
 
 func TestC40(t *testing.T) {
 	rec := evi.New(t, "C40", evi.Exploration,
-		"cases = random cold/VRF/KES seeds, era (shelley, allegra, mary, alonzo = TPraos 15-field; babbage, conway = Praos 10-field), active-slot coefficient (1, 1/20, 1/2, random p/q), stake (sigma = 1 or 0.4..1), slotsPerKESPeriod, maxKESEvolutions (62 or 1..64), opcert start period/counter, KES evolution inside the window, epoch nonce, chain context, body (empty / whole real fixture body / first k fixture txs); the slot is found by walking the KES period until consensus.BlockBuilder.BuildHeader leads. The header body is serialised by the harness from the era CDDL; the block is assembled with a harness-computed body commitment. Positive: ValidateHeader valid, block decodes, VerifyBlock (with pool registration) true, VerifyKes true, ValidateOpCert ok, and the harness' own VRF/KES/Ed25519 models accept. Negatives: one change per signed field on the wire (signature kept), KES signature bit, body bit / body swap, opcert changes re-signed with the hot key (counter, period, cold signature, foreign hot key, foreign issuer), certificate from the future / expired / wrong evolution, wrong epoch nonce. non-trivial = built header that passed all positive validators and had its full negative set evaluated; distinct by header hash")
+		"cases = random cold/VRF/KES seeds, era (shelley, allegra, mary, alonzo = TPraos 15-field; babbage, conway = Praos 10-field), active-slot coefficient (1, 1/20, 1/2, random p/q), stake (sigma = 1 or 0.4..1), slotsPerKESPeriod, maxKESEvolutions (62 or 1..64), opcert start period/counter, KES evolution inside the window, epoch nonce, chain context, body (empty / whole real fixture body / first k fixture txs); the slot is found by walking the KES period until consensus.BlockBuilder.BuildHeader leads. The header body is serialised by the harness from the era CDDL; the block is assembled with a harness-computed body commitment. Positive: ValidateHeader valid, block decodes, VerifyBlock (with pool registration) true, VerifyKes true, ValidateOpCert ok, and the harness' own VRF/KES/Ed25519 models accept. Negatives: one change per signed field on the wire (signature kept), KES signature bit, body bit / body swap, opcert changes re-signed with the hot key (counter, period, cold signature, foreign hot key, foreign issuer), certificate from the future / expired / wrong evolution, wrong epoch nonce. Every header validation is repeated on a HeaderValidator that is reused across all cases of the run, after 0-3 inputs that differ only in the stake context, and must agree with a fresh validator. non-trivial = built header that passed all positive validators and had its full negative set evaluated; distinct by header hash")
 	defer rec.Finish()
 	rec.Assume(
 		"blake2b, crypto/ed25519 and crypto/sha512 are trusted by both sides",
@@ -251,6 +315,13 @@ func TestC40(t *testing.T) {
 
 	wireRounds := rec.Pick(1, 2)
 	rec.Check(func(rt *rapid.T) {
+		c40ReuseDiffs, c40ReuseEvals = nil, 0
+		defer func() {
+			rec.EvalN(c40ReuseEvals)
+			if len(c40ReuseDiffs) > 0 && !rt.Failed() {
+				rec.Fail(rt, "reused-validator-verdict-differs", c40ReuseDiffs[0], map[string]any{"differences": c40ReuseDiffs})
+			}
+		}()
 		era := rapid.SampledFrom(c40Eras).Draw(rt, "era")
 		rec.Class("era_" + era.Name)
 		keys, err := newPoolKeys(genSeed32(rt, "coldSeed"), genSeed32(rt, "vrfSeed"), genSeed32(rt, "kesSeed"))
